@@ -4,6 +4,8 @@ import IastModel.Lemmas.Monad
 import IastModel.Lemmas.CovBlock
 import IastModel.Lemmas.CovProgram
 import IastModel.Lemmas.KeepArrow
+import IastModel.Lemmas.CovSites
+import IastModel.Lemmas.CovScope
 import IastModel.Lemmas.Master
 /-
   C04 — every enabled operation in blocks is instrumented.  Local coverage lemmas: the `+` transform
@@ -241,6 +243,76 @@ theorem every_reached_arrow_body_is_instrumented_partial (cfg : Config) (fuel : 
     split
     · exact Nat.le_trans this (cq_insertPrologue_le _ _ _)
     · exact this
+
+/-- **chains of arrow functions written without braces** (`xs.map(x => x.ys.map(y => y + z))`): `EnteredVia cfg d sp0
+    B c` says that standing on the block `B` guarantees `c` hook calls of the site — what `B`'s own statements
+    require (`EnteredVia.self`), or what is guaranteed by the wrapped body of an arrow function reached from
+    `B`'s statements (`EnteredVia.arrow`, any number of times).  For every block statement `B` of the
+    program, at any depth, that guarantee is met by the output.  The two theorems above are the chains of
+    length zero and one. -/
+theorem every_arrow_chain_is_instrumented_partial (cfg : Config) (fuel : Nat) (p : Node)
+    (h0 : ns p = 0) (ht : targetsOk p = true) (hnb : isBlockNode p = false)
+    (hnc : (transformProgram cfg fuel p).status ≠ .cancelled)
+    (hfo : (transformProgram cfg fuel p).fuelOut = false)
+    (B : Node) (hB : 1 ≤ cb B p) (d : String) (sp0 : Span) (c : Nat) (hv : EnteredVia cfg d sp0 B c) :
+    c ≤ cq (qAt d sp0) (transformProgram cfg fuel p).out := by
+  unfold transformProgram at hnc hfo ⊢
+  simp only [StateT.run] at hnc hfo ⊢
+  by_cases hr : hasReserved (tempPrefix cfg.localVarPrefix) p = true
+  · exact absurd (programVisit_reserved cfg _ fuel p {} hr) hnc
+  · simp only [Bool.not_eq_true] at hr
+    simp only [programVisit_eq cfg _ fuel p {} hr] at hnc hfo ⊢
+    have hs0 : StOk ({} : St) := by intro h; cases h
+    have hb0 : bad p = 0 := (bad_zero_iff p).mpr ht
+    have hg : goodW (okCfg cfg) true p = true := good_of_ns0 (okCfg cfg) true p h0 hb0
+    have key := blockVisit_reach_via (okCfg cfg) cfg (cfgOk_dsts cfg) d sp0 B fuel c hv (fuel + 1) p {} hs0 hg
+    rw [blockVisit_generic cfg fuel fuel p hnb] at key
+    have := key hnc hfo hB
+    split
+    · exact Nat.le_trans this (cq_insertPrologue_le _ _ _)
+    · exact this
+
+/-! ### the same conclusions in the vocabulary of the coverage oracle
+
+`uncovered` (the oracle that runs on the implementation's real output) reports an occurrence when
+`(name, span)` is not among `hookSites out`; the two corollaries below say that for the occurrences the
+theorems count this never happens on the model's output. -/
+
+theorem required_operation_of_a_block_has_its_hook_site_partial (cfg : Config) (fuel : Nat) (p : Node)
+    (h0 : ns p = 0) (ht : targetsOk p = true) (hnb : isBlockNode p = false)
+    (hnc : (transformProgram cfg fuel p).status ≠ .cancelled)
+    (hfo : (transformProgram cfg fuel p).fuelOut = false)
+    (B : Node) (hB : 1 ≤ cb B p) (d : String) (sp0 : Span) (hreq : 1 ≤ RL cfg d sp0 (stmtsOf B)) :
+    (d, sp0) ∈ hookSites (transformProgram cfg fuel p).out :=
+  hookSite_of_cq d sp0 _ (Nat.le_trans hreq
+    (every_block_statement_is_instrumented_partial cfg fuel p h0 ht hnb hnc hfo B hB d sp0))
+
+theorem required_operation_of_an_arrow_body_has_its_hook_site_partial (cfg : Config) (fuel : Nat) (p : Node)
+    (h0 : ns p = 0) (ht : targetsOk p = true) (hnb : isBlockNode p = false)
+    (hnc : (transformProgram cfg fuel p).status ≠ .cancelled)
+    (hfo : (transformProgram cfg fuel p).fuelOut = false)
+    (B1 : Node) (hB : 1 ≤ cb B1 p) (ps : List Node) (e : Node) (at' : String) (asp : Span)
+    (hA : 1 ≤ vaL cfg (.arrow ps e at' asp) (stmtsOf B1)) (d : String) (sp0 : Span) (hreq : 1 ≤ R cfg d sp0 e) :
+    (d, sp0) ∈ hookSites (transformProgram cfg fuel p).out :=
+  hookSite_of_cq d sp0 _ (Nat.le_trans hreq
+    (every_reached_arrow_body_is_instrumented_partial cfg fuel p h0 ht hnb hnc hfo B1 hB ps e at' asp hA d sp0))
+
+/-- **the scope of the theorems, decided**: `inScope cfg p d sp0` searches the block statements of the
+    program, and the chains of arrow functions reached from their statements, for one that requires the site
+    `(d, sp0)`.  Whenever it answers `true` the hook site is in the output.  The driver evaluates `inScope`
+    on every occurrence the coverage oracle demands of every input and reports both numbers, so each run
+    says how much of the oracle's demand a theorem covers as well. -/
+theorem in_scope_occurrence_has_its_hook_site_partial (cfg : Config) (fuel : Nat) (p : Node)
+    (h0 : ns p = 0) (ht : targetsOk p = true) (hnb : isBlockNode p = false)
+    (hnc : (transformProgram cfg fuel p).status ≠ .cancelled)
+    (hfo : (transformProgram cfg fuel p).fuelOut = false)
+    (d : String) (sp0 : Span) (hin : inScope cfg p d sp0 = true) :
+    (d, sp0) ∈ hookSites (transformProgram cfg fuel p).out := by
+  simp only [inScope, List.any_eq_true] at hin
+  obtain ⟨B, hB, h⟩ := hin
+  obtain ⟨c, hc, hv⟩ := viaScope_sound cfg d sp0 _ B h
+  exact hookSite_of_cq d sp0 _ (Nat.le_trans hc
+    (every_arrow_chain_is_instrumented_partial cfg fuel p h0 ht hnb hnc hfo B (cb_of_mem_blocksOf p B hB) d sp0 c hv))
 
 /-! non-vacuity: a function declaration whose body calls `g(function () { c + d })` — the inner function
     body is a block statement of the program, two blocks and one call argument deep -/
